@@ -66,7 +66,9 @@ def mix(seed, *labels):
 
 NUMS = [0, 1, -1, 2, 3, 0.5, -0.0, 1e308, 1.7976931348623157e308, 5e-324, 2**53, 2**53 + 1, 2**63 - 1, -(2**63), 2**64 - 1, 1e19, 1.5, 100,
         -(2**63) + 1, 2**64, 10**30, float("inf"), float("nan")]
-STRS = ["", "a", "abc", "0", "1", " 1 ", "1e3", "12px", "-", "inf", "NaN", "null", "é", "日本語", "😀", "a.b", "x\u0000y", "\"q\"", "apple", "\ud800"]
+STRS = ["", "a", "abc", "0", "1", " 1 ", "1e3", "12px", "-", "inf", "NaN", "null", "é", "日本語", "😀", "a.b", "x\u0000y", "\"q\"", "apple", "\ud800",
+        # long values: error messages quote them, results echo them
+        "é" * 111, "中" * 100, "😀" * 70, "aé" * 90, "naïve " * 40, "x" * 300, "a" + "日本語" * 40]
 KEYS = ["a", "b", "c", "x", "current", "accumulator", "0", "1", "", "a.b"]
 EAGER = ["==", "!=", "===", "!==", "!", "!!", "<", "<=", ">", ">=", "+", "-", "*", "/", "%", "max", "min", "merge", "in", "cat", "substr", "log"]
 LAZY = ["if", "?:", "or", "and"]
